@@ -232,6 +232,47 @@ pub fn tier2(quick: bool) -> Vec<Program> {
             }
         }
     }
+    // ONE unification that binds several variables in a chain (x -> y -> z), only the first of
+    // which carries a domain: the domain has to follow the chain to its end
+    {
+        let w = T::V(3);
+        let unis: Vec<G> = vec![
+            G::Eq(T::list(vec![x.clone(), y.clone()]), T::list(vec![y.clone(), z.clone()])),
+            G::Eq(T::list(vec![y.clone(), x.clone()]), T::list(vec![z.clone(), y.clone()])),
+            G::Eq(T::list(vec![z.clone(), y.clone()]), T::list(vec![y.clone(), x.clone()])),
+            G::Eq(T::Cmp(Tag::Pair, vec![x.clone(), y.clone()]), T::Cmp(Tag::Pair, vec![y.clone(), z.clone()])),
+            G::Eq(T::list(vec![x.clone(), y.clone(), T::I(1)]), T::list(vec![y.clone(), z.clone(), z.clone()])),
+        ];
+        let links: Vec<G> = vec![
+            G::Fd(FdKind::Lt, vec![x.clone(), w.clone()]),
+            G::Fd(FdKind::Lte, vec![w.clone(), z.clone()]),
+            G::Fd(FdKind::Diseq, vec![y.clone(), w.clone()]),
+            G::Fd(FdKind::Plus, vec![x.clone(), T::I(1), w.clone()]),
+            G::DistinctFd(T::list(vec![x.clone(), w.clone()])),
+        ];
+        for d in [Dom::Range(0, 2), Dom::Sparse(vec![0, 1, 3])] {
+            for u in &unis {
+                for l in &links {
+                    // the domain sits on x only (the constraint may name y or z: after the
+                    // unification they are x)
+                    let stmts = vec![G::InFd(vec![x.clone()], d.clone()), G::InFd(vec![w.clone()], Dom::Range(0, 3)), l.clone(), u.clone()];
+                    for (pi, perm) in permutations(&stmts).into_iter().enumerate() {
+                        if quick && pi % 2 == 1 {
+                            continue;
+                        }
+                        // a constraint over y / z posted before they are unified with x has an
+                        // operand without a domain at that moment: outside the fragment
+                        let pos = |g: &G| perm.iter().position(|s| s == g).unwrap();
+                        let names_other = matches!(l, G::Fd(FdKind::Lte, _) | G::Fd(FdKind::Diseq, _));
+                        if names_other && pos(l) < pos(u) {
+                            continue;
+                        }
+                        out.push(Program { nq: 4, body: perm });
+                    }
+                }
+            }
+        }
+    }
     // operands already bound when the constraint is posted (and the other way round)
     let binds: Vec<G> = vec![
         G::Eq(x.clone(), T::I(1)),
